@@ -919,8 +919,11 @@ Theorem protect_alias_cryptex_xtn_refuted :
   (* out of place into a block that held FF: parse error *)
   snd (protect 0 (CxXtn.wo 255)) = inr st_parse_err.
 Proof.
-  split; [reflexivity|]. split; [reflexivity|]. split; [reflexivity|].
-  split; [eexists; split; [vm_compute; reflexivity|split; reflexivity]|].
-  repeat split; vm_compute; reflexivity.
+  split; [vm_compute; reflexivity|]. split; [vm_compute; reflexivity|]. split; [vm_compute; reflexivity|].
+  split.
+  { eexists. split; [vm_compute; reflexivity|]. split; vm_compute; reflexivity. }
+  split; [vm_compute; reflexivity|]. split; [vm_compute; reflexivity|].
+  split; [vm_compute; reflexivity|]. split; [vm_compute; reflexivity|].
+  vm_compute; reflexivity.
 Qed.
 Print Assumptions protect_alias_cryptex_xtn_refuted.
